@@ -20,13 +20,19 @@ class SubCtx:
         return self.tier == "quick"
 
 
+SHAPES = {"C04": ("huge_methods", "far"), "C07": ("huge_methods", "far", "deep"), "C06": ("huge_methods", "deep"),
+          "C01": ("huge_methods", "deep"), "C02": ("deep",), "C05": ("deep",)}
+
+
 def image_slices(ctx, pid, variants=genslice.VARIANTS, want=None, n_quick=8, n_thorough=40, dynamic=True):
     sub = SubCtx(ctx, PROP_SALT[pid])
     big = (not ctx.quick()) or ctx.deep
     n_cfg = n_thorough if not ctx.quick() else (14 if ctx.deep else n_quick)   # deep = search after a broken tie
-    g = genslice.run_gen_slice(sub, n_cfg=n_cfg, variants=variants, label="generator")
+    g = genslice.run_gen_slice(sub, n_cfg=n_cfg, variants=variants, label="generator",
+                               shapes=SHAPES.get(pid, ("huge_methods",)))
     jobs, results = g.pop("jobs"), g.pop("results")
-    violations, judged, skipped = [], 0, 0
+    violations, judged, skipped = [v for v in g["violations"] if pid in v.get("props", [])], 0, 0
+    g["violations"] = []
     dist = {"judged_images": 0, "executed_steps": 0, "raised": 0}
     for job, r in zip(jobs, results):
         if r["exc"]:
